@@ -19,7 +19,8 @@ def cases(draw, tier):
     return {'nl': nl, 'route': draw(gen.routes(nl)), 'explicit_undefined': draw(st.booleans()),
             # how the assignment reaches the call: as built, or after copy.deepcopy / a pickle round trip (the Undefined
             # marker then is another object of the same kind)
-            'transport': draw(st.sampled_from(['none', 'none', 'deepcopy', 'pickle']))}
+            'transport': draw(st.sampled_from(['none', 'none', 'deepcopy', 'pickle'])),
+            'pre': draw(st.sampled_from([None, None, None, 'into_bench']))}
 
 
 def check_partial(case):
@@ -27,6 +28,14 @@ def check_partial(case):
     U = core.Undefined
     nl = case['nl']
     c = build.build(nl, case['route'])
+    if case.get('pre') == 'into_bench':
+        # the circuit under evaluation is what into_bench() left behind (rewritten gates, helper gates stored after
+        # their users); the reference reads its gates and operands back and evaluates them on its own
+        from vlib.env import UuidStream
+
+        with UuidStream(7):
+            c.into_bench()
+        nl = refsem.from_circuit(c)
     n = len(nl['inputs'])
     pats, mask = refsem.full_patterns(n)
     t = refsem.tables(nl)
@@ -135,6 +144,8 @@ def check_partial(case):
             break
     cls = gen.classify(nl)
     cls.add(f'n={n}')
+    if case.get('pre'):
+        cls.add('after_into_bench')
     if tr != 'none' and case['explicit_undefined']:
         cls.add('undefined_marker_copied')
     return {'nt': nt, 'cls': cls, 'count': {'partial_assignments': 3 ** n},
